@@ -17,6 +17,13 @@ use vstd::std_specs::iter::IteratorSpec;
 //@@ include prelude/clone_specs.rs
 }
 use jt::*;
+pub mod bt {
+use vstd::prelude::*;
+use vstd::std_specs::iter::IteratorSpec;
+use super::jt::default_of;
+//@@ include prelude/btreemap.rs
+}
+use bt::*;
 pub mod cl {
 use vstd::prelude::*;
 use std::rc::Rc;
@@ -59,7 +66,15 @@ use super::*;
 //@@ include lemmas/rows.rs
 }
 use rows::*;
-broadcast use {rows::group_rows, prefix_lemmas::group_prefix, jt::group_json_eq, jt::group_json_names, cl::group_clone_is_copy, jt::axiom_default_vec, jt::axiom_im_distinct, vstd::std_specs::hash::group_hash_axioms, keymodel::axiom_context_key_model};
+pub mod sortspec {
+use vstd::prelude::*;
+use std::rc::Rc;
+use std::collections::VecDeque;
+use super::*;
+//@@ include lemmas/sort.rs
+}
+use sortspec::*;
+broadcast use {rows::group_rows, prefix_lemmas::group_prefix, jt::group_json_eq, jt::group_json_names, cl::group_clone_is_copy, jt::axiom_default_vec, jt::axiom_im_distinct, bt::axiom_default_vecdeque, bt::axiom_bt_occupied_resolved, vstd::std_specs::hash::group_hash_axioms, keymodel::axiom_context_key_model};
 
 // ------------------------------------------------------------------ src/limits.rs
 //@@ item src/limits.rs :: struct Limiter
@@ -454,6 +469,205 @@ impl Process for GrouperProcess {
 //@@ fn grouper.start = src/grouper.rs :: impl Process for GrouperProcess :: fn start
 //@@ safety C09 C03
 //@@ rewrite underscore_param
+//@@ endfn
+}
+
+// ------------------------------------------------------------------ src/sorters.rs
+use std::collections::VecDeque;
+//@@ item src/sorters.rs :: enum Direction
+//@@ keep-derive Clone Copy
+//@@ enditem
+//@@ item src/sorters.rs :: struct Sorter
+//@@ enditem
+//@@ item src/sorters.rs :: type OrderedData
+//@@ enditem
+//@@ item src/sorters.rs :: struct SortProcess
+//@@ enditem
+
+pub open spec fn cap_of(c: Option<usize>) -> Option<nat> { match c { Some(n) => Some(n as nat), None => None } }
+
+impl Sorter {
+    pub closed spec fn g(&self) -> Rc<dyn Get> { self.sort_by }
+    pub closed spec fn asc(&self) -> bool { self.direction is Asc }
+//@@ fn sorter.create_processor = src/sorters.rs :: impl Sorter :: fn create_processor
+//@@ safety C03 C07 C08
+//@@ ret r
+//@@ header
+    requires next.inv(),
+    ensures r.inv(), r.log() == next.log(), !r.must_break(),
+        // --sort-by: the rows that have a key, emitted bucket by bucket in key order (reverse for DESC), each bucket in
+        // arrival order; with a capacity the bucket machine drops the row that would come last whenever it is full
+        forall|rows: Seq<Context>| #[trigger] r.fut(rows) == next.fut(emit(self.asc(), sort_all(self.g(), self.asc(), Seq::empty(), cap_of(max_size), rows))), // @obl STAGE.sorter.ctor : C07 C08 C03
+//@@ body-start
+        proof { assert forall|e: Seq<(JsonValue, VecDeque<Context>)>| e.len() == 0 implies #[trigger] bkv(e) =~= Seq::<(JsonValue, Seq<Context>)>::empty() by {} }
+//@@ endfn
+}
+
+impl SortProcess {
+    pub closed spec fn bk(&self) -> Seq<(JsonValue, Seq<Context>)> { bkv(self.data.view()) }
+    pub closed spec fn is_asc(&self) -> bool { self.direction is Asc }
+    pub closed spec fn same_but_data(&self, o: &SortProcess) -> bool {
+        self.next == o.next && self.sort_by == o.sort_by && self.direction == o.direction && self.space_left == o.space_left
+    }
+//@@ fn sorter.remove_last_item = src/sorters.rs :: impl SortProcess :: fn remove_last_item
+//@@ safety C08 C07 C05
+//@@ header
+        ensures
+            final(self).same_but_data(old(self)),
+            // the top-N shortcut drops exactly the row that would have been emitted last (for ties: the newest)
+            final(self).bk() == bk_remove_last(old(self).is_asc(), old(self).bk()), // @obl STAGE.sorter.remove_last : C08 C07
+//@@ endfn
+}
+
+impl Process for SortProcess {
+    closed spec fn inv(&self) -> bool { self.next.inv() }
+    closed spec fn log(&self) -> Seq<u8> { self.next.log() }
+    closed spec fn fut(&self, rows: Seq<Context>) -> Seq<u8> {
+        self.next.fut(emit(self.is_asc(), sort_all(self.sort_by, self.is_asc(), self.bk(), cap_of(self.space_left), rows)))
+    }
+    closed spec fn must_break(&self) -> bool { false }
+    closed spec fn eager(&self) -> bool { false }
+
+//@@ fn sorter.start = src/sorters.rs :: impl Process for SortProcess :: fn start
+//@@ safety C03
+//@@ endfn
+//@@ fn sorter.complete = src/sorters.rs :: impl Process for SortProcess :: fn complete
+//@@ safety C07 C08 C03 C16
+//@@ body-start
+        let ghost b0 = self.bk();
+        proof {
+            assert(sort_all(self.sort_by, self.is_asc(), b0, cap_of(self.space_left), Seq::empty()) == b0);
+        }
+//@@ loop 1 iter it
+                    invariant
+                        self.next.inv(), self.sort_by == old(self).sort_by, self.direction == old(self).direction, self.space_left == old(self).space_left,
+                        0 <= it.index@ <= b0.len(), it.seq().len() == b0.len(),
+                        forall|j: int| 0 <= j < it.seq().len() ==> (*(#[trigger] it.seq()[j]))@ == b0[j].1,
+                        is_prefix(old(self).next.log(), self.next.log()),
+                        // what the successor has still to receive (buckets it.index.. in emission order) followed by x
+                        forall|x: Seq<Context>| self.next.log().add(#[trigger] self.next.fut(emit_from(true, b0, it.index@).add(x)))
+                            == old(self).next.log().add(old(self).next.fut(emit(true, b0).add(x))),
+//@@ after-loop 1
+                proof {
+                    assert(emit_from(true, b0, b0.len() as int) =~= Seq::<Context>::empty());
+                    assert forall|x: Seq<Context>| self.next.log().add(#[trigger] self.next.fut(x)) == old(self).next.log().add(old(self).next.fut(emit(true, b0).add(x))) by {
+                        assert(emit_from(true, b0, b0.len() as int).add(x) =~= x);
+                    }
+                }
+//@@ before-loop 2
+                    let ghost mut gd = items@;
+                    proof {
+                        let e1 = emit_from(true, b0, it.index@ + 1);
+                        assert(emit_from(true, b0, it.index@) == rev_seq(b0[it.index@].1).add(e1));
+                        assert(items@ == b0[it.index@].1);
+                    }
+//@@ loop 2
+                        invariant
+                            self.next.inv(), self.sort_by == old(self).sort_by, self.direction == old(self).direction, self.space_left == old(self).space_left,
+                            0 <= it.index@ < b0.len(), gd == items@,
+                            is_prefix(old(self).next.log(), self.next.log()),
+                            forall|x: Seq<Context>| self.next.log().add(#[trigger] self.next.fut(rev_seq(items@).add(emit_from(true, b0, it.index@ + 1)).add(x)))
+                                == old(self).next.log().add(old(self).next.fut(emit(true, b0).add(x))),
+                        ensures
+                            items@.len() == 0,
+                            self.next.inv(), self.sort_by == old(self).sort_by, self.direction == old(self).direction, self.space_left == old(self).space_left,
+                            is_prefix(old(self).next.log(), self.next.log()),
+                            forall|x: Seq<Context>| self.next.log().add(#[trigger] self.next.fut(rev_seq(items@).add(emit_from(true, b0, it.index@ + 1)).add(x)))
+                                == old(self).next.log().add(old(self).next.fut(emit(true, b0).add(x))),
+                        decreases items@.len(),
+//@@ loop-start 2
+                        proof {
+                            let d = items@;
+                            let e1 = emit_from(true, b0, it.index@ + 1);
+                            assert(gd =~= d.push(value));
+                            assert(d.push(value).drop_last() =~= d);
+                            assert(rev_seq(gd) == seq![value].add(rev_seq(d)));
+                            assert forall|x: Seq<Context>| seq![value].add(#[trigger] rev_seq(d).add(e1).add(x)) == rev_seq(gd).add(e1).add(x) by {
+                                assert(seq![value].add(rev_seq(d).add(e1).add(x)) =~= seq![value].add(rev_seq(d)).add(e1).add(x));
+                            }
+                            gd = d;
+                        }
+//@@ after-loop 2
+                    proof {
+                        let e1 = emit_from(true, b0, it.index@ + 1);
+                        assert(rev_seq(items@) =~= Seq::<Context>::empty());
+                        assert forall|x: Seq<Context>| self.next.log().add(#[trigger] self.next.fut(e1.add(x))) == old(self).next.log().add(old(self).next.fut(emit(true, b0).add(x))) by {
+                            assert(rev_seq(items@).add(e1).add(x) =~= e1.add(x));
+                        }
+                    }
+//@@ loop 3 iter it
+                    invariant
+                        self.next.inv(), self.sort_by == old(self).sort_by, self.direction == old(self).direction, self.space_left == old(self).space_left,
+                        0 <= it.index@ <= b0.len(), it.seq().len() == b0.len(),
+                        forall|j: int| 0 <= j < it.seq().len() ==> (*(#[trigger] it.seq()[j]))@ == b0[b0.len() - 1 - j].1,
+                        is_prefix(old(self).next.log(), self.next.log()),
+                        // what the successor has still to receive (buckets it.index.. in emission order) followed by x
+                        forall|x: Seq<Context>| self.next.log().add(#[trigger] self.next.fut(emit_from(false, b0, it.index@).add(x)))
+                            == old(self).next.log().add(old(self).next.fut(emit(false, b0).add(x))),
+//@@ after-loop 3
+                proof {
+                    assert(emit_from(false, b0, b0.len() as int) =~= Seq::<Context>::empty());
+                    assert forall|x: Seq<Context>| self.next.log().add(#[trigger] self.next.fut(x)) == old(self).next.log().add(old(self).next.fut(emit(false, b0).add(x))) by {
+                        assert(emit_from(false, b0, b0.len() as int).add(x) =~= x);
+                    }
+                }
+//@@ before-loop 4
+                    let ghost mut gd = items@;
+                    proof {
+                        let e1 = emit_from(false, b0, it.index@ + 1);
+                        assert(emit_from(false, b0, it.index@) == rev_seq(b0[b0.len() - 1 - it.index@].1).add(e1));
+                        assert(items@ == b0[b0.len() - 1 - it.index@].1);
+                    }
+//@@ loop 4
+                        invariant
+                            self.next.inv(), self.sort_by == old(self).sort_by, self.direction == old(self).direction, self.space_left == old(self).space_left,
+                            0 <= it.index@ < b0.len(), gd == items@,
+                            is_prefix(old(self).next.log(), self.next.log()),
+                            forall|x: Seq<Context>| self.next.log().add(#[trigger] self.next.fut(rev_seq(items@).add(emit_from(false, b0, it.index@ + 1)).add(x)))
+                                == old(self).next.log().add(old(self).next.fut(emit(false, b0).add(x))),
+                        ensures
+                            items@.len() == 0,
+                            self.next.inv(), self.sort_by == old(self).sort_by, self.direction == old(self).direction, self.space_left == old(self).space_left,
+                            is_prefix(old(self).next.log(), self.next.log()),
+                            forall|x: Seq<Context>| self.next.log().add(#[trigger] self.next.fut(rev_seq(items@).add(emit_from(false, b0, it.index@ + 1)).add(x)))
+                                == old(self).next.log().add(old(self).next.fut(emit(false, b0).add(x))),
+                        decreases items@.len(),
+//@@ loop-start 4
+                        proof {
+                            let d = items@;
+                            let e1 = emit_from(false, b0, it.index@ + 1);
+                            assert(gd =~= d.push(value));
+                            assert(d.push(value).drop_last() =~= d);
+                            assert(rev_seq(gd) == seq![value].add(rev_seq(d)));
+                            assert forall|x: Seq<Context>| seq![value].add(#[trigger] rev_seq(d).add(e1).add(x)) == rev_seq(gd).add(e1).add(x) by {
+                                assert(seq![value].add(rev_seq(d).add(e1).add(x)) =~= seq![value].add(rev_seq(d)).add(e1).add(x));
+                            }
+                            gd = d;
+                        }
+//@@ after-loop 4
+                    proof {
+                        let e1 = emit_from(false, b0, it.index@ + 1);
+                        assert(rev_seq(items@) =~= Seq::<Context>::empty());
+                        assert forall|x: Seq<Context>| self.next.log().add(#[trigger] self.next.fut(e1.add(x))) == old(self).next.log().add(old(self).next.fut(emit(false, b0).add(x))) by {
+                            assert(rev_seq(items@).add(e1).add(x) =~= e1.add(x));
+                        }
+                    }
+//@@ before "self.data.clear();"
+        proof { assert(emit(self.is_asc(), b0).add(Seq::empty()) =~= emit(self.is_asc(), b0)); }
+//@@ endfn
+//@@ fn sorter.process = src/sorters.rs :: impl Process for SortProcess :: fn process
+//@@ safety C07 C08 C03 C05
+//@@ before "self.data.entry(key).or_default().push_front(context);"
+            let ghost k0 = key;
+            let ghost v0 = self.data.view();
+//@@ after "self.data.entry(key).or_default().push_front(context);"
+            proof {
+                let v1 = self.data.view();
+                lemma_rank_bounds(bt_keys(v0), k0);
+                let nd = if bt_found(bt_keys(v0), k0) { v1[bt_idx(bt_keys(v0), k0)].1 } else { v1[bt_rank(bt_keys(v0), k0)].1 };
+                lemma_bkv_upsert(v0, k0, nd, context);
+                assert(self.bk() == bk_add(old(self).bk(), k0, context));
+            }
 //@@ endfn
 }
 
